@@ -54,6 +54,10 @@ mut("C13", "pfb-binary-error-swallowed-when-data", ("pfb/reader.go", "\t\t\tif e
      "\t\t\tif err == io.EOF {\n\t\t\t\t// the segment is shorter than its declared length\n\t\t\t\terr = io.ErrUnexpectedEOF\n\t\t\t}\n\t\t\tif err != nil && (k == 0 || err == io.ErrUnexpectedEOF) {\n\t\t\t\treturn n, err\n\t\t\t}\n"))
 mut("C13", "countingwriter-hides-error", ("type1/write.go", "\tn, err = w.w.Write(p)\n\tw.n += n\n\treturn n, err\n", "\tn, err = w.w.Write(p)\n\tw.n += n\n\tif n == len(p) {\n\t\terr = nil\n\t}\n\tif n > 0 && n < len(p) {\n\t\treturn len(p), nil\n\t}\n\treturn n, err\n"))
 
+mut("C13", "wrapped-eof-taken-for-eof", ("interpreter.go", "import (\n\t\"fmt\"\n", "import (\n\t\"errors\"\n\t\"fmt\"\n"),
+    ("interpreter.go", "\t\to, err := s.ScanToken()\n\t\tif err == io.EOF {\n\t\t\tbreak\n", "\t\to, err := s.ScanToken()\n\t\tif errors.Is(err, io.EOF) {\n\t\t\tbreak\n"))
+mut("C13", "afm-footer-write-unchecked", ("afm/write.go", "\treturn write(\"EndFontMetrics\")\n", "\twrite(\"EndFontMetrics\")\n\treturn nil\n"))
+
 # ---- C14
 mut("C14", "revert-short-binary-fix", ("pfb/reader.go", "\t\t\tif err == io.EOF {\n\t\t\t\t// the segment is shorter than its declared length\n\t\t\t\terr = io.ErrUnexpectedEOF\n\t\t\t}\n", ""))
 mut("C14", "uppercase-parked-nibble", ("pfb/reader.go", "\t\t\t\tr.tail = hexEncode(b[k-1] & 0x0f)\n", "\t\t\t\tr.tail = \"0123456789ABCDEF\"[b[k-1]&0x0f]\n"))
@@ -84,6 +88,10 @@ mut("C18", "scanner-buffer-reuse", ("scanner.go", "\treturn &scanner{\n\t\tsrc: 
     ("scanner.go", "func newScanner(r io.Reader) *scanner {\n", "var scratch []byte\n\nfunc newScanner(r io.Reader) *scanner {\n"))
 mut("C18", "font-directory-shared-template", ("builtin.go", "\tFontDirectory := Dict{}\n", "\tFontDirectory := sharedFontDirectory\n\tclear(FontDirectory)\n"), ("builtin.go", "func makeSystemDict() Dict {\n", "var sharedFontDirectory = Dict{}\n\nfunc makeSystemDict() Dict {\n"))
 
+mut("C18", "readcmap-watchdog-timer", ("cmap.go", "import (\n\t\"bytes\"\n\t\"fmt\"\n\t\"io\"\n", "import (\n\t\"bytes\"\n\t\"fmt\"\n\t\"io\"\n\t\"time\"\n"),
+    ("cmap.go", "\tintp.MaxOps = 1_000_000 // TODO(voss): measure what is required\n\terr := intp.Execute(r)\n", "\tintp.MaxOps = 1_000_000 // TODO(voss): measure what is required\n\twatchdog := time.AfterFunc(5*time.Second, func() { intp.MaxOps = 1 })\n\tdefer watchdog.Stop()\n\terr := intp.Execute(r)\n"))
+mut("C18", "cmap-names-sorted-by-worker", ("cmap.go", "\tnames := maps.Keys(intp.CMapDirectory)\n\tslices.Sort(names)\n", "\tnames := maps.Keys(intp.CMapDirectory)\n\tsorted := make(chan struct{})\n\tgo func() { slices.Sort(names); lastNames = names; close(sorted) }()\n\t<-sorted\n"),
+    ("cmap.go", "func ReadCMap(r io.Reader) (Dict, error) {\n", "var lastNames []Name\n\nfunc ReadCMap(r io.Reader) (Dict, error) {\n"))
 
 # replacements for mutants that turned out to be equivalent (see DESIGN.md 11)
 mut("C12", "pfb-text-counts-requested-bytes", ("pfb/reader.go", "\t\t\tk, err = r.r.Read(b[:k])\n\t\t\tr.len -= int64(k)\n\t\t\tn += k\n", "\t\t\twant := k\n\t\t\tk, err = r.r.Read(b[:k])\n\t\t\tr.len -= int64(want)\n\t\t\tn += k\n"))
